@@ -448,6 +448,7 @@ class C13(OptEngineBase):
                     continue
                 if kind in ("export", "export_again"):
                     before = graphs.spec_of_graph(g)
+                    bytes_before = bytes(w.disk.files[op["path"]]) if op["path"] in w.disk.files else None
                     fired_before = len(w.plan.fired)
                     raised = None
                     try:
@@ -481,6 +482,16 @@ class C13(OptEngineBase):
                                 break
                         elif (inexp or poisoned) and isinstance(raised, (NotImplementedError, ValueError, KeyError, TypeError, AssertionError)):
                             res.probe("inexpressible_refused")
+                            # a refusal writes nothing: the destination must not be left holding a different (partial) graph
+                            res.n_checks += 1
+                            bytes_after = bytes(w.disk.files[op["path"]]) if op["path"] in w.disk.files else None
+                            if bytes_after != bytes_before and not fired_kinds:
+                                res.violate("C13:refusal-clobbered-file",
+                                            "op %d to_g2o refused the graph (%s) but %s: the content was written differently as well as refused"
+                                            % (i, type(raised).__name__,
+                                               "created %s with %d bytes of a partial graph" % (op["path"], len(bytes_after or b"")) if bytes_before is None
+                                               else "replaced the %d bytes at %s by %d bytes of a partial graph" % (len(bytes_before), op["path"], len(bytes_after or b""))))
+                                break
                         else:
                             res.violate("C13:export-raised", "op %d to_g2o raised %s: %s on content the format can express" % (i, type(raised).__name__, raised))
                             break
